@@ -16,9 +16,15 @@
      same transport position;
    * C06_data_exceeded: above the limit: first lim octets, ErrDataTooLarge,
      never io.EOF.
+   * C06_data_bound_reading_on: a backend that goes on reading after reads
+     that ended in a transport failure (a time-out inside the message: the
+     Read hands out the octets it has TOGETHER with the error; the backend
+     extends its deadline and reads on - ReadRetry.v), any number of times,
+     still obtains at most lim octets - for every transport state and
+     schedule, WITHOUT the hypothesis that the line limiter stays quiet.
    (That the command stream still resumes behind the end marker after
    ErrDataTooLarge is C02_resume.) *)
-From Smtp Require Import Bytes Transport DataReader DotSpec TransportProofs DataProofs DataProofs2.
+From Smtp Require Import Bytes Transport DataReader DotSpec TransportProofs DataProofs DataProofs2 ReadRetry ReadRetryProofs.
 
 Theorem C06_data_bound (lim : Z) (sizes : list nat) (stop : option N) (t : transport) :
   (0 < lim)%Z -> transparent t ->
@@ -70,3 +76,10 @@ Example C06_witness :
   wit_run 4 [3] None = (bs "abc" ++ [CR], Some RTooLarge, (-1)%Z, Some REOF, bs "NOOP" ++ [CR; LF]) /\
   wit_run 1 [7] None = (bs "a", Some RTooLarge, (-1)%Z, Some REOF, bs "NOOP" ++ [CR; LF]).
 Proof. vm_compute. repeat split; reflexivity. Qed.
+
+Theorem C06_data_bound_reading_on (lim : Z) (sizes : list nat) (stop : option N) (retry : nat) (t : transport) :
+  (0 < lim)%Z ->
+  let '(out, e, d', t') := backend_reads_retry sizes stop retry (new_data_reader lim) t in
+  (Z.of_nat (List.length out) <= lim)%Z.
+Proof. exact (retry_limit_bound lim sizes stop retry t). Qed.
+Print Assumptions C06_data_bound_reading_on.
